@@ -3,8 +3,8 @@
 import json
 from pathlib import Path
 V = Path(__file__).resolve().parent.parent
-print("| seeded change | breaks | what it needs to manifest | confirmed | caught by (tier) | how |")
-print("|---|---|---|---|---|---|")
+print("| seeded change | breaks | what it needs to manifest | confirmed | caught by (tier) | how | first run |")
+print("|---|---|---|---|---|---|---|")
 for d in sorted((V / "seeded").iterdir()):
     m = json.loads((d / "meta.json").read_text())
     e = m.get("evaluation", {})
@@ -14,10 +14,37 @@ for d in sorted((V / "seeded").iterdir()):
         caught += f"; {also}"
     how = {"failing-input": "concrete failing input", "no-failing-input-found": "broken correspondence, no-failing-input-found", "none": "-"}.get(e.get("check_kind"), "?")
     print(f"| {d.name} | {m['property']} | {m.get('summary','').replace('|','/')[:160]} — needs: {m.get('needs','').replace('|','/')[:200]} | "
-          f"{'yes' if e.get('confirmed') else 'no'} (tests {e.get('tests_passed','?')}) | {caught} | {how} |")
+          f"{'yes' if e.get('confirmed') else 'no'} (tests {e.get('tests_passed','?')}) | {caught} | {how} | {m.get('missed_first','caught')} |")
 print()
 K = json.loads((V / "known_findings.json").read_text())
 print("| repaired defect (fix: commit in /repo) | property |")
 print("|---|---|")
 for f in K["fixed"]:
     print(f"| {f['entry'].replace('|','/')} | {f['property']} |")
+
+print()
+import re, sys, importlib
+sys.path.insert(0, str(V / "harness"))
+import common
+sys.path.insert(0, str(common.SRC))
+PARTIAL = {
+ "C02": "interleaving at single-await granularity inside one Function is exercised, not proved",
+ "C09": "PARTIAL: classification, truthfulness, dependency gating and single-function recovery are proved; the STEP_TIMEOUT bound and whole-workflow convergence are observed under the virtual-time loop only",
+ "C10": "reconcile_krm_resource / Workflow call sites are exercised by oracle only (their evaluation sites are not all modelled in Coq)",
+ "C12": "purity (no mutation of inputs/base/template/function) is a snapshot test — a heap-free model cannot state it; merge semantics fully proved",
+ "C14": "watch lists of ResourceFunction / FunctionTest prepare are straight-line models tied by correspondence only",
+ "C18": "'no case can modify the Function or fixtures' is a snapshot test (no heap in the model)",
+ "C20": "PARTIAL: schema gate, rejection clauses, shape facts and extractor totality are proved; 'the prepare bodies never raise' is fuzzing of the real code",
+ "C11": "lark/celpy lexer+unescape is a hand model (tested off the happy path); repr(float) is a Section parameter whose two laws are re-checked on every float a run produces",
+ "C16": "asyncio ready-queue semantics are modelled (validated by per-op state comparison), not verified; hypotheses: strictly increasing clock, atomic preparers, acyclic declarations",
+}
+print("| id | model files | theorems (all closed under the global context) | strength / what is not proved | quick wall (s) |")
+print("|---|---|---|---|---|")
+for n in range(1, 21):
+    pid = f"C{n:02d}"
+    mod = importlib.import_module(f"props.{pid}")
+    files = [f for f in common.dep_closure(list(mod.COQ_TARGETS)) if f.startswith(("model/", "gen/"))]
+    txt = common.strip_coq_comments((V / "coq" / "props" / f"P_{pid}.v").read_text())
+    nth = len(re.findall(r"(?m)^\s*Theorem\b", txt))
+    ev = json.loads((V / "evidence" / f"{pid}.json").read_text()) if (V / "evidence" / f"{pid}.json").exists() else {}
+    print(f"| {pid} | {', '.join(files)} | {nth} | {PARTIAL.get(pid, 'full on the model')} | {ev.get('wall_s', '?')} |")
